@@ -32,6 +32,13 @@ func (c *Ctx) InstallSoften() {
 	byName := map[string]*ssa.Function{}
 	for _, fn := range c.P.LibFunctions() {
 		byName[name(fn)] = fn
+		// instantiations of a generic function are reported under the generic's name too
+		if o := fn.Origin(); o != nil && o != fn {
+			byName[name(o)] = fn
+			if k := strings.Index(name(fn), "["); k > 0 {
+				byName[name(fn)[:k]] = fn
+			}
+		}
 	}
 	cache := map[*ssa.Function]string{}
 	c.R.Soften = func(fnName, rule string) string {
